@@ -10,9 +10,11 @@ Hypotheses that appear below, all explicit:
                   `WithdrawEarnedFees(owner, nil)` is not used (no message reaches it).
 The one full statement that the code does *not* satisfy (F-svc-1, pinned by the repository's own tests) is
 kept as a `def` with its negation proved from a witness (`escrow_kept_by_new_batch_fails`); the statements
-that F-svc-2 and F-svc-4 used to exclude are proved in full since /repo 5529ca8 and 3670fd1.
+that F-svc-2 and F-svc-4 used to exclude are proved in full since /repo 5529ca8 and 3670fd1
+(`tally_reachable`: the tallies agree after every history; `charge_eq_fees_partial`, now without a payment
+hypothesis).
 -/
-import Irismod.Proofs.ServiceTally
+import Irismod.Proofs.ServiceTallyInv
 
 namespace Irismod.Props.C07
 open Irismod Irismod.Sdk Irismod.Service Irismod.Spec.C07 Irismod.Proofs.Service
@@ -306,6 +308,41 @@ theorem tally_kept_by_answer (s : State) (ht : TallyInv s) (p o : Addr) (ho : AM
     (n : Nat) (s' : State) (e1 : s'.earned = bump s.earned p d0 n) (e2 : s'.oearned = bump s.oearned o d0 n)
     (e3 : s'.owners = s.owners) : TallyInv s' :=
   tally_bump ht ho d0 n s' e1 e2 e3
+
+/-- no operation of the history is the keeper-only `WithdrawEarnedFees(owner, nil)` (the message server parses
+the provider address, so no message reaches it) -/
+def ReachableHistory (ops : List Op) : Prop := ∀ op ∈ ops, opReachable op
+
+theorem tb_genesis {s : State} (g : Genesis s) : TB s := TB_empty s g.earned g.oearned g.reqs g.binds
+
+theorem tb_apply {s : State} {op : Op} (hs : TB s) (hr : opReachable op) : TB (apply s op) := by
+  unfold apply step
+  have h0 : TB { s with cb := [] } := hs.of_frame (TBFrame.of_eq rfl rfl rfl rfl rfl)
+  cases h : stepCore { s with cb := [] } op with
+  | ok s' => exact TB_stepCore h0 hr h
+  | error e => exact h0
+
+theorem tb_run : ∀ (ops : List Op) (s : State), TB s → ReachableHistory ops → TB (run s ops)
+  | [], _, hs, _ => hs
+  | op :: rest, s, hs, hr =>
+    tb_run rest (apply s op) (tb_apply hs (hr op (List.mem_cons_self ..))) (fun o ho => hr o (List.mem_cons_of_mem _ ho))
+
+/-- one accepted operation — any message, any number of fee denoms, an end block with expiry and new batches —
+keeps `Σ earned fees of the owner's providers = owner-side tally` for every owner and denom. `TB` is the
+inductive bundle: the agreement itself, unique keys in both tables, and "every provider with earned fees, a
+request or a binding has an owner" -/
+theorem tally_step (s s' : State) (op : Op) (hs : TB s) (hr : opReachable op) (h : step s op = .ok s') :
+    TallyInv s' ∧ TB s' := by
+  have := tb_apply (s := s) hs hr
+  unfold apply at this
+  rw [h] at this
+  exact ⟨this.tally, this⟩
+
+/-- **the owner-side and provider-side tallies agree after every history** from a chain on which the module
+has not been used (the statement F-svc-2 used to refute; holds since /repo 5529ca8) -/
+theorem tally_reachable (s : State) (g : Genesis s) (ops : List Op) (hr : ReachableHistory ops) :
+    TallyInv (run s ops) :=
+  (tb_run ops s (tb_genesis g) hr).tally
 
 /-- owner A3 with providers A0 (9stake earned) and A1 (18dbb earned): the former F-svc-2 witness -/
 def w2 : State :=
